@@ -136,7 +136,8 @@ Proof.
 Qed.
 Print Assumptions sorted_nodup.
 
-(* the full statement (any documents) is false for the model, as for the library: inserting x(d0), y(d1),
+(* the full statement (any documents) is false for the model of the loop without the keep-documents-together
+   flag (the source as it is while GenNodelist.keeps_documents_together = false), as for the library: inserting x(d0), y(d1),
    z(d0), x(d0) gives x, y, x, z - documents interleaved and a node twice (known finding F7) *)
 Definition W2 : world :=
   [ (Node 0 [Node 0 [Node 0 []; Node 0 []; Node 0 []; Node 0 []; Node 0 []; Node 0 []]], true);
@@ -146,7 +147,7 @@ Definition y1 : lnode := (1, [SC 0]).
 Definition z0 : lnode := (0, [SC 4; SC 0]).
 
 Theorem add_in_doc_order_inv_refuted :
-  exists W ns l, forallb (wvalid W) ns = true /\ fold_left (add_step W) ns (Some []) = Some l /\
+  exists W ns l, forallb (wvalid W) ns = true /\ fold_left (add_step_v false W) ns (Some []) = Some l /\
                  groupedb (map fst l) = false /\ nodupb l = false.
 Proof. exists W2, [x0; y1; z0; x0], [x0; y1; x0; z0]. vm_compute. repeat split. Qed.
 Print Assumptions add_in_doc_order_inv_refuted.
